@@ -56,7 +56,7 @@ func onlyTelemetry(v ssa.Value, depth int) bool {
 func C01(c *Ctx) {
 	w, r := c.W, c.R
 	r.Explanation = "(A6) nondeterminism / out-of-band-state taint over the repo call graph from all consensus roots (MsgServer methods, ante decorators of the chain, Begin/EndBlock, InitGenesis, ValidateBasic/GetSigners, invariants, migrations): no wall clock, math/rand or crypto/rand, environment/CPU queries, file or network I/O, goroutines, select, channel operations, unsafe conversions, architecture-dependent floating point, or iteration over a map is reachable, except by three value-flow exceptions that are themselves checked: " +
-		"a wall-clock value whose every use is an argument of cosmos-sdk/telemetry; a wall-clock read dominated by a predicate on a message field that the message's own ValidateBasic provably rejects (the pair is the obligation); a map range whose body has no store/event/bank effect and whose only escaping values are errors wrapping a loop-invariant sentinel. " +
+		"a wall-clock value whose every use is an argument of cosmos-sdk/telemetry; a wall-clock read dominated by a predicate on a message field that the message's own ValidateBasic provably rejects (the pair is the obligation); a map range whose body has no store access of any kind (reads are gas-metered), event or bank effect and whose only escaping values are errors wrapping a loop-invariant sentinel. " +
 		"Out-of-band state: no assignment to a package-level variable outside init and no store through a keeper/decorator receiver is reachable, no package-level variable written outside init is read on a consensus path. Necessary conditions for C01; hash equality itself and the determinism/crash-atomicity of the SDK, IAVL and CometBFT are trusted."
 	r.Rules = []string{"A6.sources", "A6.root-clean", "A6.wallclock-telemetry", "A6.wallclock-refuted", "A6.map-range", "A6.global-write", "A6.global-read", "A6.keeper-mutation", "A6.float"}
 	r.Trusted = []string{"cosmos-sdk baseapp / store / IAVL / CometBFT determinism and crash recovery", "baseapp, authz, gov and group call ValidateBasic on every (nested) message before dispatch", "telemetry does not feed back into state"}
@@ -314,16 +314,19 @@ func mapRange(c *Ctx, f *ssa.Function, e ir.Effect, path string) {
 				if !ok {
 					continue
 				}
+				if n := methodNameOf(call); n == "ConsumeGas" || n == "GasMeter" || n == "KVStore" {
+					problems = append(problems, "gas-metered operation ("+n+") inside the loop at "+w.InstrPos(in))
+				}
 				for _, t := range w.CalleesOf(call) {
 					if reachesEffect(c, t, func(x ir.Effect) bool {
-						return isStateMutation(x) || x.Kind == "Event"
+						return isStateMutation(x) || x.Kind == "Event" || strings.HasPrefix(x.Kind, "Store")
 					}) {
-						problems = append(problems, "state/event effect inside the loop via "+fn(t))
+						problems = append(problems, "state/event effect or gas-metered store access inside the loop via "+fn(t))
 					}
 				}
 			}
 			for _, x := range w.EffectsOf(f) {
-				if x.Site.Block() == b && (isStateMutation(x) || x.Kind == "Event") {
+				if x.Site.Block() == b && (isStateMutation(x) || x.Kind == "Event" || strings.HasPrefix(x.Kind, "Store")) {
 					problems = append(problems, x.Kind+" inside the loop at "+w.InstrPos(x.Site))
 				}
 			}
